@@ -13,6 +13,7 @@ type packetManager struct {
 	requests    chan orderedPacket
 	responses   chan orderedPacket
 	fini        chan struct{}
+	done        chan struct{} // closed when the controller has exited
 	incoming    orderedPackets
 	outgoing    orderedPackets
 	sender      packetSender // connection object
@@ -31,6 +32,7 @@ func newPktMgr(sender packetSender) *packetManager {
 		requests:  make(chan orderedPacket, SftpServerWorkerCount),
 		responses: make(chan orderedPacket, SftpServerWorkerCount),
 		fini:      make(chan struct{}),
+		done:      make(chan struct{}),
 		incoming:  make([]orderedPacket, 0, SftpServerWorkerCount),
 		outgoing:  make([]orderedPacket, 0, SftpServerWorkerCount),
 		sender:    sender,
@@ -149,6 +151,7 @@ func (s *packetManager) workerChan(runWorker func(chan orderedRequest),
 
 // process packets
 func (s *packetManager) controller() {
+	defer close(s.done)
 	for {
 		select {
 		case pkt := <-s.requests:
@@ -160,10 +163,33 @@ func (s *packetManager) controller() {
 			s.outgoing = append(s.outgoing, pkt)
 			s.outgoing.Sort()
 		case <-s.fini:
+			// close() waited for every registered request to have its response queued,
+			// but queued is not yet received: drain both channels so that no response is lost.
+			for {
+				select {
+				case pkt := <-s.requests:
+					s.incoming = append(s.incoming, pkt)
+					s.incoming.Sort()
+					continue
+				case pkt := <-s.responses:
+					s.outgoing = append(s.outgoing, pkt)
+					s.outgoing.Sort()
+					continue
+				default:
+				}
+				break
+			}
+			s.maybeSendPackets()
 			return
 		}
 		s.maybeSendPackets()
 	}
+}
+
+// wait blocks until the controller has sent every queued response and exited.
+// It must only be called once the channel returned by workerChan has been closed.
+func (s *packetManager) wait() {
+	<-s.done
 }
 
 // send as many packets as are ready
